@@ -82,7 +82,10 @@ pub fn enumerate_opt<G: AffineRepr + 'static>(max1: usize, max2: usize, seed: u6
     for a in s1.iter() {
         for b in s2.iter() {
             count += 1;
-            let p2: Vec<&[Op]> = if b.is_empty() { vec![] } else { vec![b.as_slice()] };
+            // the second-phase calls are made by one closure, and also split over two closures at every
+            // position (the pairing state of single allocations carries over between closures)
+            for split in 0..=(if b.len() >= 2 { b.len() - 1 } else { 0 }) {
+            let p2: Vec<&[Op]> = if b.is_empty() { vec![] } else if split == 0 { vec![b.as_slice()] } else { vec![&b[..split], &b[split..]] };
             let shape = Shape::new("seq", a, &p2);
             let (want_h, want_l) = expected(a, b);
             crate::arena::reset();
@@ -119,10 +122,11 @@ pub fn enumerate_opt<G: AffineRepr + 'static>(max1: usize, max2: usize, seed: u6
                 }
             }
             if !ok {
-                out.push((format!("{}: {}", name, detail), false));
+                out.push((format!("{} (closures split at {}): {}", name, split, detail), false));
                 if stop_at_first {
                     return (count, out);
                 }
+            }
             }
         }
     }
